@@ -124,6 +124,27 @@ def run(ctx):
         if name == "termmon":
             match = ctx.devmatcher("TermMonTrace", "TermMonTrace.cfg", [("D5", {"CheckBeforeSelect": "FALSE"})], deque=True)
         ctx.settle(rejected, reexec, describe, devmatch=match, attempts=3)
+    # growth: the real clientHandler / serverHandler on every failure path (Handler.tla), with the real monitor counting
+    hcases, _ = ctx.tlc_emit("Handler", "Handler_MC.cfg", tag="HCASE", label="handler life cycle: all kinds x failure points (safety + liveness)", count=True)
+    hcases = [h for _n, h in hcases]
+    if len(hcases) != 10:
+        raise Inconclusive("expected 10 handler cases, got %d" % len(hcases))
+    hscen = []
+    for i in range(3 if quick else 20):
+        order = hcases[:]
+        random.Random(ctx.seed * 100 + i).shuffle(order)
+        hscen.append({"id": "handlers%d" % i, "cases": [{"kind": h["kind"], "fail": h["fail"]} for h in order] * (1 if quick else 2), "seed": ctx.seed * 100 + i})
+    htr = ctx.exec_scenarios(binary, hscen, "handlers", testbin="TestVerifHandlers", shards=min(8, len(hscen)), timeout=1500)
+    ctx.sample({"group": "handlers", "events": htr[0]["events"][:6]})
+    hrej = ctx.validate("HandlerTrace", "HandlerTrace.cfg", htr, label="trace validation: handlers")
+    ctx.log("handlers: %d traces (%d handler runs), %d rejected" % (len(htr), sum(len(h["cases"]) for h in hscen), len(hrej)))
+
+    def hreexec(tr):
+        t2 = ctx.exec_scenarios(binary, [tr["scenario"]], "handlers-re", testbin="TestVerifHandlers")
+        rej = ctx.validate("HandlerTrace", "HandlerTrace.cfg", t2, label="re-validation")
+        return rej[0] if rej else None
+    ctx.settle(hrej, hreexec, lambda tr: "real clientHandler/serverHandler run rejected at event %s: %s" % (
+        tr["reject"]["at_event_index"], json.dumps(tr["reject"]["event"])), attempts=2)
     ctx.assumptions += ["connections handed to copyLoop are harness objects (no ReaderFrom/WriterTo fast paths, as for obfs4 conns)",
                         "'blocked for good' = monitor goroutine in select per runtime.Stack and no sender pending in the harness",
                         "signals are offered on termMonitor.sigChan directly (the channel os/signal delivers to)"]
